@@ -45,6 +45,7 @@ type RunResult struct {
 
 var theT *testing.T // the *testing.T of TestWorker (synctest needs one)
 
+var curEnv atomic.Pointer[Env]
 var curRun atomic.Value // string describing the run in progress (for the hang watchdog)
 var runStart atomic.Int64
 
@@ -57,6 +58,7 @@ func runOne(p *Property, sc *Scenario, d RunDesc, thorough bool) (res RunResult)
 		tape = NewTape(d.Seed)
 	}
 	e := newEnv(p.ID, sc.Name, d.Case, d.Seed, thorough, tape)
+	curEnv.Store(e)
 	curRun.Store(fmt.Sprintf("%s/%s case=%d seed=%d replay=%v", p.ID, sc.Name, d.Case, d.Seed, d.Tape != nil))
 	runStart.Store(time.Now().UnixNano())
 	defer runStart.Store(0)
@@ -96,6 +98,16 @@ func runOne(p *Property, sc *Scenario, d RunDesc, thorough bool) (res RunResult)
 	}
 	if sc.Bubble {
 		e.inBub = true
+		// let goroutines of earlier runs that are on their way out finish, so that
+		// the goroutine count taken at bubble start is a stable baseline
+		for i, last, same := 0, -1, 0; i < 50 && same < 3; i++ {
+			runtime.Gosched()
+			if n := runtime.NumGoroutine(); n == last {
+				same++
+			} else {
+				last, same = n, 0
+			}
+		}
 		bodyDone := make(chan struct{}) // deliberately created outside the bubble
 		finished := make(chan struct{})
 		go func() {
@@ -232,9 +244,9 @@ func (e *Env) Quiesce() bool {
 	if !e.inBub {
 		return true
 	}
-	if e.libParks.Load() == 0 && !e.forceDump {
-		// Nobody is held by the engine inside library code, so nothing can be
-		// waiting on a lock such a goroutine holds: durable blocking is the only
+	if e.TrustWait && !e.forceDump {
+		// The scenario never parks a goroutine inside library code, so nothing
+		// can wait on a lock held across a park: durable blocking is the only
 		// stable state.
 		synctest.Wait()
 		return true
